@@ -81,14 +81,14 @@ def oneStepFresnel(Uin, wvl, d1, z):
     x1,y1 = numpy.meshgrid( numpy.arange(-N/2.,N/2.) * d1,
                             numpy.arange(-N/2.,N/2.) * d1)
     #observation plane coordinates
-    d2 = wvl*z/(N*d1)
+    d2 = wvl*abs(z)/(N*d1)
     x2,y2 = numpy.meshgrid( numpy.arange(-N/2.,N/2.) * d2,
                             numpy.arange(-N/2.,N/2.) * d2 )
 
     #evaluate Fresnel-Kirchoff integral
     A = 1/(1j*wvl*z)
     B = numpy.exp( 1j * k/(2*z) * (x2**2 + y2**2))
-    C = fouriertransform.ft2(Uin *numpy.exp(1j * k/(2*z) * (x1**2+y1**2)), d1)
+    C = _fresnelTransform(Uin *numpy.exp(1j * k/(2*z) * (x1**2+y1**2)), d1, z)
 
     Uout = A*B*C
 
